@@ -50,6 +50,23 @@ def run(tier, wd):
             n += 1
             groups.append({"rel": "envmono", "members": [{"si": si, "env": base, "argv": line},
                                                          {"si": si, "env": sorted(base + [o]), "argv": line}]})
+    # systematically: every pair of options a spec uses, both backed by the environment and both left out of the command line
+    # (several required options satisfied by their environment values at once)
+    import itertools
+    for si, s in enumerate(specs):
+        used = sorted(set(k for nd in g.walk(s["ast"]) if nd["k"] in ("opt", "grp") for k in ([nd["a"]] if nd["k"] == "opt" else nd["xs"])))
+        for k1, k2 in itertools.combinations(used, 2):
+            for _ in range(2 if q else 4):
+                items = [it for it in g.sample_items(p, s["ast"], rnd) if not (it[0] == "occ" and it[1] in (k1, k2))]
+                if len(items) > 7 or not g.marker_ok(items):
+                    continue
+                line = G.random_line(p, items, rnd)
+                for base, o in (([k1], k2), ([k2], k1)):
+                    key = (si, tuple(line), tuple(base), o)
+                    if key in seen:
+                        continue
+                    seen.add(key)
+                    groups.append({"rel": "envmono", "members": [{"si": si, "env": base, "argv": line}, {"si": si, "env": sorted(base + [o]), "argv": line}]})
     triples = gc.run_groups(rep, wd, binpath, [p], specs, groups, "envmono", law="monotone", only_opts=True)
     # every member is also compared with the reference under its own environment: "a required single option absent from the
     # command line is satisfied by its environment value" is a statement about each run, not about the pair
